@@ -117,3 +117,35 @@ Print Assumptions C03_unsmeared_means_no_positive_width.
 Theorem C03_code_dispatch : dispatch_translated = true -> forall (T : Type) (O : Ops T) dx a b, code_dispatch O dx a b = dispatch O dx a b.
 Proof. intros Ht. try solve [vm_compute in Ht; discriminate Ht]. all: reflexivity. Qed.
 Print Assumptions C03_code_dispatch.
+
+(* "scale and background pass through": WHERE the flat background enters is read from the current text of
+   DataMixin._calc_theory (Gen/C03_theory.v: straight-line reading over the caller's background, the kernel evaluated
+   with a given background parameter, and the resolution's apply).  The kernel is asked for background 0 and the
+   caller's background is added to the smeared values - so, with the kernel's documented form scale*X + background
+   (C01) and a resolution that is a matrix (one weight column per data point), the result is
+   scale * (smeared X) + background for EVERY weight matrix: the background is not multiplied by the column sums,
+   which differ from one for slit columns at the ends of the grid (C03_affine shows what would happen inside). *)
+From SM Require Import Gen.C03_theory.
+Theorem C03_code_theory : theory_translated = true -> forall (T : Type) (O : Ops T) sesans res kern bg,
+  code_theory O sesans res kern bg = map (fun x => add O x (if sesans then zero O else bg)) (res (kern (zero O))).
+Proof. intros Ht. try solve [vm_compute in Ht; discriminate Ht]. all: reflexivity. Qed.
+Print Assumptions C03_code_theory.
+Theorem C03_code_background_after : theory_translated = true -> forall cols X a bg,
+  Forall (fun col => length X = length col) cols ->
+  code_theory ROps false (fun v => map (apply ROps v) cols) (fun b => map (fun x => a * x + b) X) bg
+  = map (fun col => a * apply ROps X col + bg) cols.
+Proof.
+  intros Ht cols X a bg Hl. rewrite (C03_code_theory Ht). rewrite map_map. apply map_ext_in. intros col Hin.
+  rewrite Forall_forall in Hl. cbn [add zero ROps]. rewrite apply_affine by (apply Hl; exact Hin). ring.
+Qed.
+Print Assumptions C03_code_background_after.
+(* sesans data: no background at all *)
+Theorem C03_code_sesans_no_background : theory_translated = true -> forall cols X a bg,
+  Forall (fun col => length X = length col) cols ->
+  code_theory ROps true (fun v => map (apply ROps v) cols) (fun b => map (fun x => a * x + b) X) bg
+  = map (fun col => a * apply ROps X col) cols.
+Proof.
+  intros Ht cols X a bg Hl. rewrite (C03_code_theory Ht). rewrite map_map. apply map_ext_in. intros col Hin.
+  rewrite Forall_forall in Hl. cbn [add zero ROps]. rewrite apply_affine by (apply Hl; exact Hin). ring.
+Qed.
+Print Assumptions C03_code_sesans_no_background.
